@@ -30,7 +30,7 @@ def check(ctx, m, cfg, props_sel, rule="R-CFORM", funcs=None):
         ("getNumCells", ["C03"], _getNumCells), ("cellToChildrenSize", ["C04", "C13", "C06"], _cellToChildrenSize),
         ("gridPathCellsSize", ["C14"], _gridPathCellsSize), ("maxFaceCount", ["C19"], _maxFaceCount),
         ("maxGridDiskSize", ["C05", "C12"], _maxGridDiskSize), ("validateChildPos", ["C13", "C01"], _validateChildPos),
-        ("child-count arithmetic stays 64-bit", ["C13", "C04", "C03", "C12"], _narrow), ("cellArea units", ["C08"], _areaUnits), ("edgeLength units", ["C10"], _edgeUnits),
+        ("child-count arithmetic stays 64-bit", ["C13", "C04", "C03", "C12", "C01"], _narrow), ("cellArea units", ["C08"], _areaUnits), ("edgeLength units", ["C10"], _edgeUnits),
     ]
     n = 0
     for name, props, fn in insts:
@@ -296,6 +296,11 @@ def _ipow_slices(m):
                             work.append(("i", u.id))
                         elif u.op == "trunc" and int(u.type[1:]) < 64:
                             truncs.append(u)
+                        if u.op == "shl" and u.ops[1][0] == "c" and u.ops[0][0] == "i" and ("i", u.ops[0][1]) == k:
+                            # instcombine's form of (int64_t)(int32_t)x : shl k ; ashr k  (sign extension from 64-k bits = truncation)
+                            for v in f.users(("i", u.id)):
+                                if v.op in ("ashr", "lshr") and v.ops[1][0] == "c" and v.ops[1][1] == u.ops[1][1] and v.ops[0] == ["i", u.id] and u.ops[1][1] > 0:
+                                    truncs.append(v)
                 out.append((f, i, seen, truncs))
     return out
 
@@ -310,6 +315,6 @@ def _narrow(m):
         if truncs:
             t = truncs[0]
             return {"bad": ("narrow:%s" % f.name,
-                            "%s truncates a value computed from _ipow(7, n) to %s at %s; child counts reach 7^15 = 4.7e12 and do not fit (wrong positions for resolution differences >= 12)"
-                            % (f.name, t.type, t.where()), t.where())}
+                            "%s truncates a value computed from _ipow(7, n) (%s) at %s; child counts reach 7^15 = 4.7e12 and do not fit (wrong positions for resolution differences >= 12)"
+                            % (f.name, ("to " + t.type) if t.op == "trunc" else "to %d bits by a shift pair" % (64 - t.ops[1][1]), t.where()), t.where())}
     return {"n": len(sl), "ok": "%d _ipow(7, n) call sites: no value computed from the result is truncated below 64 bits" % len(sl)}
